@@ -19,7 +19,7 @@ for p in claimed:
                    "replay_cmd_template": "cat {path}   # replay artefact written by the check after it reproduced the model on the real build",
                    "engine": "+".join(engines),
                    "level_claimed": {"category": "model_checking", "text": TEXTS[p][0], "design_ref": TEXTS[p][1]},
-                   "level_note": "Trusted base: rustc (MIR/codegen), Kani 0.68/CBMC 6.11/CaDiCaL, z3 4.8.12, mirsym's MIR semantics and std models (validated per run by concrete differential runs against the real build), the reference oracles in /verif/vlib/specs and /verif/harness/kani. Cut third-party code (pco, lz4_flex, capnp, hashbrown, regex, sqlparser, std sort) is assumed correct. Bounds are listed in the evidence file; nothing outside them is claimed.",
+                   "level_note": "Trusted base: rustc (MIR/codegen), Kani 0.68/CBMC 6.11/CaDiCaL, z3 (z3-solver 5.1.0 of the tooling venv; floating-point queries on a fresh solver, every model validated against its query), mirsym's MIR semantics and std models (validated per run by concrete differential runs against the real build), the reference oracles in /verif/vlib/specs and /verif/harness/kani. Cut third-party code (pco, lz4_flex, capnp runtime and generated accessors - modelled from the .capnp schemas -, hashbrown, regex, sqlparser, std sort) is assumed correct. Bounds are listed in the evidence file; nothing outside them is claimed.",
                    "technique": "solver-based checking of the real code: " + " and ".join(ENG[e] for e in engines)})
 na = [{"property_id": p['id'], "reason": NA_REASON.get(p['id'], "obligations planned in DESIGN.md §3 are not built yet")} for p in props if p['id'] not in claimed]
 m = {"version": 1, "setup_cmd": "./setup.sh",
